@@ -248,8 +248,9 @@ class Result:
     def add_mc(self, name, r, expect_violation=None):
         """Record a model-checking run; r from tlc_mc."""
         st = r["states"] or {"generated": 0, "distinct": 0}
-        self.cov["states"] += st["distinct"]
-        self.cov["transitions"] += st["generated"]
+        if expect_violation is None:
+            self.cov["states"] += st["distinct"]
+            self.cov["transitions"] += st["generated"]
         self.extra.setdefault("model_checking", []).append(
             {"cfg": name, "distinct_states": st["distinct"], "states_generated": st["generated"],
              "violated": r["violated"], "expected_violation": expect_violation, "wall_s": r["wall_s"]})
@@ -257,7 +258,8 @@ class Result:
             if not r["ok"]:
                 raise Infra("model checking %s failed (violated=%s):\n%s" % (name, r["violated"], r["out"][-3000:]))
         else:
-            if r["violated"] != expect_violation:
+            exp = expect_violation if isinstance(expect_violation, (set, list, tuple)) else [expect_violation]
+            if r["violated"] not in exp:
                 raise Infra("model checking %s: expected a counterexample to %s, got %s\n%s" % (
                     name, expect_violation, r["violated"], r["out"][-3000:]))
 
@@ -288,16 +290,19 @@ class Result:
             "violations": len(self.violations),
         }
         ev["coverage"]["known_findings_seen"] = sorted(self.known)
-        os.makedirs(os.path.join(V, "evidence"), exist_ok=True)
-        tmp = os.path.join(V, "evidence", self.pid + ".json.tmp")
+        # evidence of runs against a scratch copy of the repository (mutant
+        # self-tests) must not overwrite the evidence of /repo
+        edir = os.environ.get("VERIF_EVIDENCE_DIR") or (os.path.join(V, "evidence") if REPO == "/repo" else os.path.join(BUILD, "evidence"))
+        os.makedirs(edir, exist_ok=True)
+        tmp = os.path.join(edir, self.pid + ".json.tmp")
         with open(tmp, "w") as f:
             json.dump(ev, f, indent=1, default=str)
-        os.replace(tmp, os.path.join(V, "evidence", self.pid + ".json"))
+        os.replace(tmp, os.path.join(edir, self.pid + ".json"))
         return 1 if self.violations else 0
 
 
-def drive(args, timeout=900):
-    p = run([os.path.join(BIN, "drive")] + args, timeout=timeout)
+def drive(args, timeout=900, binary="drive"):
+    p = run([os.path.join(BIN, binary)] + args, timeout=timeout)
     if p.returncode != 0:
         raise Infra("driver failed (rc=%d): %s\n%s" % (p.returncode, " ".join(args), (p.stdout + p.stderr)[-3000:]))
     return p
@@ -316,11 +321,26 @@ def drive_and_validate(res, shards, dev, what, family_desc, rerun=True):
         summ = os.path.join(work, "s%d-%d.json" % (i, attempt))
         tmp = os.path.join(work, "d%d-%d" % (i, attempt))
         os.makedirs(tmp, exist_ok=True)
-        drive(args + ["-out", out, "-summary", summ, "-tmp", tmp])
+        binary, args_, mydev = "drive", list(args), dev
+        while args_ and args_[0][0] in "@#":
+            if args_[0].startswith("@"):
+                binary = args_[0][1:]
+            else:   # "#dev=F-a,F-b": the deviations that apply to this kind of trace
+                mydev = [x for x in args_[0][5:].split(",") if x and x in dev]
+            args_ = args_[1:]
+        drive(args_ + ["-out", out, "-summary", summ, "-tmp", tmp], binary=binary)
         shutil.rmtree(tmp, ignore_errors=True)
         with open(summ) as f:
             s = json.load(f)
-        r = tlc_trace(out, dev=dev, sdir=sdir)
+        # pass 1: the ideal specification (no deviation enabled).  Only if it
+        # rejects: pass 2 with the recorded known findings enabled.
+        r = tlc_trace(out, dev=(), sdir=sdir)
+        r["ideal_accepted"] = r["accepted"]
+        if not r["accepted"] and mydev:
+            r1 = r
+            r = tlc_trace(out, dev=mydev, sdir=sdir)
+            r["ideal_accepted"] = False
+            r["ideal_reached"] = r1["reached"]
         return {"i": i, "args": args, "trace": out, "summary": s, "tlc": r}
 
     results = []
@@ -356,7 +376,7 @@ def drive_and_validate(res, shards, dev, what, family_desc, rerun=True):
                 raise Infra("rejection at line %d of %s did not reproduce on re-execution" % (bad, r["trace"]))
             bad2 = t2["reached"] + 1
             first, last = history_bounds(r2["trace"], bad2)
-            diag = tlc_trace(r2["trace"], dev=dev, diag_line=bad2, sdir=sdir)
+            diag = tlc_trace(r2["trace"], dev=(), diag_line=min(bad2, r2["tlc"].get("ideal_reached", bad2 - 1) + 1), sdir=sdir)
             res.violation("%s: event at trace line %d is not a step of the specification" % (what, bad2), {
                 "driver_args": r["args"], "rejected_line": bad2,
                 "rejected_event": read_lines(r2["trace"], bad2, bad2),
@@ -365,6 +385,36 @@ def drive_and_validate(res, shards, dev, what, family_desc, rerun=True):
                 "family": family_desc,
             })
     return results
+
+
+def gen_transitions(cfg_name, overrides=None, timeout=900, heap="4g"):
+    """Run the DsGen transition emitter with spec/gen/<cfg_name>; returns
+    (path of scenario file, tlc result dict, number of transitions)."""
+    with open(os.path.join(SPEC, "gen", cfg_name)) as f:
+        cfg = f.read()
+    for k, v in (overrides or {}).items():
+        cfg = re.sub(r"(?m)^  %s (=|<-) .*$" % re.escape(k), "  %s %s" % (k, v), cfg)
+    d = spec_dir()
+    cfgp = os.path.join(d, "gen_run.cfg")
+    with open(cfgp, "w") as f:
+        f.write(cfg)
+    md = os.path.join(d, "md-gen")
+    t = time.time()
+    p = java_tlc(["-workers", "1", "-metadir", md, "-config", cfgp, "DsGen.tla"], d, timeout, heap=heap)
+    out = p.stdout + p.stderr
+    shutil.rmtree(md, ignore_errors=True)
+    st = parse_states(out)
+    if st is None or "Error:" in out:
+        raise Infra("transition emitter failed:\n" + out[-3000:])
+    path = os.path.join(scratch("verif-gen-"), "scen.ndjson")
+    n = 0
+    with open(path, "w") as f:
+        for m in re.finditer(r'^<<"GEN", (".*")>>$', out, re.M):
+            f.write(json.loads(m.group(1)) + "\n")
+            n += 1
+    if n == 0:
+        raise Infra("transition emitter produced nothing")
+    return path, {"states": st, "wall_s": round(time.time() - t, 2), "violated": None, "ok": True, "out": ""}, n
 
 
 def sample_events(trace, n=6, ops=None):
